@@ -149,6 +149,17 @@ DEFAULTS = [datetime.datetime(2003, 9, 25), datetime.datetime(2001, 1, 31), date
             datetime.datetime(2024, 3, 30, 12), datetime.datetime(2023, 5, 31, 1, 2, 3, 4), datetime.datetime(2100, 8, 29),
             datetime.datetime(9999, 12, 25, 10)]
 
+# aware `default=` values (the tzinfo objects are module-level so that "is the default's tzinfo" is decidable)
+_TZ5 = datetime.timezone(datetime.timedelta(hours=5))
+_TZM330 = datetime.timezone(datetime.timedelta(hours=-3, minutes=-30), "NST")
+AWARE_DEFAULTS = [datetime.datetime(2003, 9, 25, tzinfo=_TZ5), datetime.datetime(2001, 1, 31, 7, 8, 9, 10, tzinfo=_TZM330),
+                  datetime.datetime(2000, 2, 29, tzinfo=datetime.timezone.utc), datetime.datetime(2024, 3, 31, 1, 30, tzinfo=_TZ5)]
+
+
+def pick_default(rng, p_aware=0.08):
+    return rng.choice(AWARE_DEFAULTS) if rng.random() < p_aware else rng.choice(DEFAULTS)
+
+
 # ----------------------------------------------------------------------------- C14 malformed stream
 WORDS = (MON + MONL + WD + WDL + ['Sept', 'am', 'pm', 'AM', 'PM', 'a', 'p', 'A', 'P', 'h', 'm', 's', 'hour', 'hours', 'minute',
          'minutes', 'second', 'seconds', 'H', 'M', 'S', 'at', 'on', 'and', 'ad', 'AD', 't', 'T', 'of', 'st', 'nd', 'rd', 'th',
@@ -288,7 +299,7 @@ def options(rng, text, allow_custom=True, allow_bad_tz=False):
     fz = rng.random() < 0.35
     fwt = rng.random() < 0.25
     tz = rng.choice(tz_specs())
-    return L.Call(text, default=rng.choice(DEFAULTS), dayfirst=rng.choice([None, None, True, False]),
+    return L.Call(text, default=pick_default(rng), dayfirst=rng.choice([None, None, True, False]),
                   yearfirst=rng.choice([None, None, True, False]), fuzzy=fz, fwt=fwt, ignoretz=rng.random() < 0.15,
                   tz=tz, info=info, info_custom=custom)
 
